@@ -469,10 +469,27 @@ func typedNilRule(c *Ctx, pr *PropertyRun, prop string) {
 	r := NewRule(prop, prop+".typed-nil", "a pointer-typed result converted to the interface type error comes from a function that returns a non-nil pointer on every path (a nil *HTTPError in an error variable is a non-nil error) (E4)")
 	pr.Rules = append(pr.Rules, r)
 	var nonNilFn func(fn *ssa.Function, idx int, depth int) bool
+	var nonNilValRec func(v ssa.Value, depth int) bool
 	nonNilVal := func(v ssa.Value, depth int) bool {
 		for i := 0; i < 4; i++ {
 			switch x := v.(type) {
 			case *ssa.Alloc:
+				return true
+			case *ssa.Const:
+				return !x.IsNil()
+			case *ssa.Phi:
+				// a variable assigned on some paths only
+				if depth > 3 {
+					return false
+				}
+				for _, e := range x.Edges {
+					if e == ssa.Value(x) {
+						continue
+					}
+					if !nonNilValRec(e, depth+1) {
+						return false
+					}
+				}
 				return true
 			case *ssa.ChangeType:
 				v = x.X
@@ -494,6 +511,7 @@ func typedNilRule(c *Ctx, pr *PropertyRun, prop string) {
 		}
 		return false
 	}
+	nonNilValRec = nonNilVal
 	nonNilFn = func(fn *ssa.Function, idx int, depth int) bool {
 		if depth > 3 || len(fn.Blocks) == 0 {
 			return false
@@ -524,7 +542,7 @@ func typedNilRule(c *Ctx, pr *PropertyRun, prop string) {
 				return
 			}
 			switch mi.X.(type) {
-			case *ssa.Call, *ssa.Extract:
+			case *ssa.Call, *ssa.Extract, *ssa.Phi:
 			default:
 				return // a literal, a local: decided where it is made
 			}
